@@ -33,6 +33,10 @@ func Content(L, k int, pattern string) []byte {
 		switch pattern {
 		case "equal":
 			b[i] = byte('A' + o%26)
+		case "counter":
+			// chunk j holds j as a k-byte big-endian number: 256^k distinct chunks
+			// (content-addressed leaves with as many different digests)
+			b[i] = byte(j >> (8 * uint(k-1-o)))
 		default:
 			b[i] = byte(1 + (j*31+o*7+j/251)%251)
 		}
